@@ -1,5 +1,6 @@
 From Coq Require Import Extraction ExtrOcamlBasic List NArith ZArith.
-From BioVerif Require Import Lib.Conv Lib.BitPfx Model.Trie Model.TrieRaw Spec.TrieSpec.
+From BioVerif Require Import Lib.Conv Lib.BitPfx Model.Trie Model.TrieRaw Spec.TrieSpec
+  Model.NetArith Gen.NetGen Model.TrieNet.
 Extraction Language OCaml.
 
 (* paths are numbered; N.eqb plays route.Path.Compare / Equal *)
@@ -24,6 +25,17 @@ Definition x_r_longer := rt_getLonger N.
 Definition x_r_dump := rt_dump N.
 Definition x_r_count := rt_count N.
 
+(* the machine-word instance with the prefix operations regenerated from the Go source (Gen/NetGen.v);
+   run as a second model on the same traces *)
+Definition x_g_empty := empty NetArith.pfx N.
+Definition x_g_step := g_step N N.eqb.
+Definition x_g_get := gt_get N.
+Definition x_g_lpm := gt_lpm N.
+Definition x_g_longer := gt_getLonger N.
+Definition x_g_dump := nt_dump N.
+Definition x_g_count := nt_count N.
+
 Extraction "c01_model.ml" conv_anchor x_empty x_step x_get x_lpm x_longer x_dump x_count
   x_spec_step x_spec_get x_spec_lpm x_spec_longer
-  x_r_empty x_r_step x_r_get x_r_lpm x_r_longer x_r_dump x_r_count mkR.
+  x_r_empty x_r_step x_r_get x_r_lpm x_r_longer x_r_dump x_r_count mkR
+  x_g_empty x_g_step x_g_get x_g_lpm x_g_longer x_g_dump x_g_count mkpfx mkip.
